@@ -80,3 +80,65 @@ pub fn blind(cx: &mut Cx) {
     });
     cx.run();
 }
+
+/// EXTREME SIZE in a child process: a credential of 2600 / 3200 messages signed, presented and
+/// verified on a thread with the default 2 MiB stack.  A failure mode of such sizes is the death
+/// of the whole process (stack exhaustion aborts, it does not unwind), so the probe runs where a
+/// death is an observation instead of the end of the batch.
+pub fn bigproof_child(a: &[String]) {
+    let suite = Suite::from_idx(a.first().and_then(|x| x.parse().ok()).unwrap_or(0));
+    let seed: u64 = a.get(1).and_then(|x| x.parse().ok()).unwrap_or(1);
+    let l: usize = a.get(2).and_then(|x| x.parse().ok()).unwrap_or(2600);
+    let h = std::thread::Builder::new().stack_size(2 << 20).spawn(move || -> Result<(), String> {
+        let (sk, pk) = api::keygen(suite, &bytes_for(seed, b"big-ikm", 0, 32), None, None)?;
+        let msgs: Vec<Bytes> = (0..l).map(|i| bytes_for(seed, b"big-m", i as u64, 1 + i % 13)).collect();
+        let hd = Some(b"big".to_vec());
+        let sig = api::sign(suite, &sk, &pk, &hd, &Some(msgs.clone()))?;
+        if !api::verify(suite, &pk, &sig, &hd, &Some(msgs.clone())).accepted() { return Err("verify rejected the fresh signature".into()); }
+        let didx: Vec<usize> = (0..l).filter(|i| i % 16 == 5).collect();
+        let proof = api::proof_gen(suite, &pk, &sig, &hd, &None, &Some(msgs.clone()), &Some(didx.clone()))?;
+        let dm: Vec<Bytes> = didx.iter().map(|&i| msgs[i].clone()).collect();
+        match api::proof_verify(suite, &pk, &proof, &hd, &None, &Some(dm), &Some(didx)) { api::Res::Accept => Ok(()), r => Err(format!("proof_verify: {r:?}")) }
+    }).expect("spawn");
+    match h.join() { Ok(Ok(())) => println!("ok"), Ok(Err(e)) => println!("err {e}"), Err(_) => println!("panic") }
+}
+
+pub fn bigproof(cx: &mut Cx) {
+    let suite = Suite::from_idx(cx.ch.choose("big_suite", 2));
+    let l = [2600usize, 3200][cx.ch.choose("big_L", 2) as usize];
+    let seed = cx.run_seed;
+    let node = cx.node("launcher");
+    let sidx = if suite == Suite::from_idx(0) { 0 } else { 1 };
+    cx.count("probe.extreme_size_in_a_child_process");
+    cx.step(node, "bigproof-child", StepOpts::default(), move || {
+        let exe = if std::path::Path::new("/proc/self/exe").exists() { std::path::PathBuf::from("/proc/self/exe") } else { std::env::current_exe().map_err(|e| e.to_string())? };
+        let out = std::process::Command::new(exe).args(["bigproof", &sidx.to_string(), &seed.to_string(), &l.to_string()]).output().map_err(|e| e.to_string())?;
+        Ok::<_, String>((String::from_utf8_lossy(&out.stdout).trim().to_string(), out.status.code(), format!("{:?}", out.status)))
+    }, move |cx, st| {
+        let (text, code, status) = match st.out { Ok(Ok(t)) => t, other => { eprintln!("zksim: bigproof child could not be launched: {other:?} (harness error)"); std::process::exit(2); } };
+        cx.eval(&[b"bigproof", &(l as u64).to_le_bytes(), text.as_bytes()], true);
+        match (code, text.as_str()) {
+            (Some(0), "ok") => cx.count("verdict.MustAccept.accept"),
+            (Some(0), other) => cx.violation("C03", "extreme-size/flow-failed".into(), format!("suite={} L={l}: {other}", suite.name())),
+            _ => cx.violation("C03", "extreme-size/process-died".into(), format!("suite={} L={l}: the process making the proof died ({status}); on a thread with a 2 MiB stack", suite.name())),
+        }
+    });
+    cx.run();
+}
+
+/// The draw behind proof_gen: calculate_random_scalars(n) returns n scalars, every time.  A source
+/// that gives up once in a few hundred thousand scalars (a health test, a bounded retry) fails a
+/// proof generation just as rarely; this asks for enough scalars to meet such a rate.
+pub fn draw_counts(cx: &mut Cx) {
+    let calls = if cx.thorough { 1500usize } else { 400 };
+    let node = cx.node("sweeper");
+    cx.count("probe.random_draw_count_volume");
+    cx.step(node, "draw-counts", StepOpts::default(), move || {
+        use zkryptium::utils::util::bbsplus_utils::calculate_random_scalars;
+        (0..calls).filter(|_| calculate_random_scalars(2000).len() != 2000).count()
+    }, move |cx, st| {
+        cx.eval(&[b"draw-counts", &(calls as u64).to_le_bytes()], true);
+        match st.out { Ok(0) => cx.count("verdict.MustAccept.accept"), other => cx.violation("C03", "proof_gen/random-draw-came-back-short".into(), format!("{other:?} of {calls} draws of 2000 random scalars (what proof_gen asks for with 1995 hidden messages) did not return 2000 scalars")) }
+    });
+    cx.run();
+}
